@@ -28,13 +28,14 @@ EXPLANATION = (
 def r03_1(ctx):
     rep, model = ctx.rep, ctx.model
     rep.rule("R03.1", "split identities: W_L + W_R == W; (l+r) H == r (H_R + W_L/2) + l (H_L - W_R/2)")
-    for have_H in (True, False):
-        L = bk.eval_split(model, have_H, True)
-        R = bk.eval_split(model, have_H, False)
+    for have_H, halfway in ((True, False), (False, False), (True, True), (False, True)):
+        L = bk.eval_split(model, have_H, True, halfway=halfway)
+        R = bk.eval_split(model, have_H, False, halfway=halfway)
         fi = L["fi"]
         rep.analysed(fi)
         W, H, l, r = L["W"], L["H"], L["l"], L["r"]
-        construct = f"{fi.key}::R03.1::W-additive::{'H' if have_H else 'noH'}"
+        dy = "/dyadic" if halfway else ""
+        construct = f"{fi.key}::R03.1::W-additive::{'H' if have_H else 'noH'}{dy}"
         rep.check(nf.equal(L["W_out"] + R["W_out"], W), "R03.1", astq.loc(fi), construct,
                   f"children increments sum to `{Rat.lift(L['W_out']) + R['W_out']}`, not to the parent's W "
                   f"({'with' if have_H else 'without'} space-time Levy area): a query for the parent interval no longer "
@@ -42,14 +43,14 @@ def r03_1(ctx):
         if have_H:
             lhs = (l + r) * H
             rhs = r * (R["H_out"] + L["W_out"] * Fraction(1, 2)) + l * (L["H_out"] - R["W_out"] * Fraction(1, 2))
-            rep.check(nf.equal(lhs, rhs), "R03.1", astq.loc(fi), f"{fi.key}::R03.1::H-chen",
+            rep.check(nf.equal(lhs, rhs), "R03.1", astq.loc(fi), f"{fi.key}::R03.1::H-chen{dy}",
                       "children (W, H) do not recombine to the parent's H by Chen's relation: "
                       f"(l+r)H - [r(H_R + W_L/2) + l(H_L - W_R/2)] = `{nf.reduce_sqrt(lhs - rhs)}`",
                       "(l+r) H == r (H_R + W_L/2) + l (H_L - W_R/2)")
         else:
-            rep.check(L["H_out"] is None and R["H_out"] is None, "R03.1", astq.loc(fi), f"{fi.key}::R03.1::noH-none",
+            rep.check(L["H_out"] is None and R["H_out"] is None, "R03.1", astq.loc(fi), f"{fi.key}::R03.1::noH-none{dy}",
                       "without space-time Levy area the children must carry H = None", "H is None")
-    ctx.floor("R03.1", 4)
+    ctx.floor("R03.1", 8)
 
 
 def r03_2(ctx):
@@ -287,14 +288,21 @@ def r03_8(ctx):
     n = 0
     pts_split, pts_leaf = ((-1, 0, 2, 4, 6, 8, 9), (-1, 0, 3, 5, 8, 9)) if ctx.tier == "quick" else \
         ((-2, -1, 0, 1, 2, 3, 4, 5, 6, 7, 8, 9, 10), (-2, -1, 0, 1, 3, 5, 7, 8, 9, 10))
+    # queries that coincide with the node up to a rounding error (a backward pass rebuilds the time grid from the other
+    # end): they are different intervals and must be cut exactly like any other
+    e = Fraction(8, 10 ** 13)
+    near = [(Fraction(0), 8 - e), (e, Fraction(8)), (e, 8 - e), (Fraction(0), 4 - e), (4 + e, Fraction(8))]
     for mid_, points in ((4, pts_split), (None, pts_leaf)):
-        for i, ta in enumerate(points):
-            for tb in points[i + 1:]:
+        pairs = [(ta, tb) for i, ta in enumerate(points) for tb in points[i + 1:]] + near
+        for ta, tb in pairs:
+            if True:
                 n += 1
                 actions, out, node, fi = _eval_loc_inner(model, 0, 8, mid_, ta, tb)
                 want, appended = _loc_spec(0, 8, mid_, ta, tb)
                 got = [(a, tuple(int(x) if isinstance(x, Fraction) and x.denominator == 1 else x for x in args))
                        for a, args in actions]
+                want = [(a, tuple(int(x) if isinstance(x, Fraction) and x.denominator == 1 else x for x in args))
+                        for a, args in want]
                 ok = got == want and ((len(out) == 1 and out[0] is node) if appended else not out)
                 kind = "leaf" if mid_ is None else "split node"
                 rep.check(ok, "R03.8", astq.loc(fi), f"{fi.key}::R03.8::{kind}::ta={ta},tb={tb}",
